@@ -2,7 +2,10 @@
 
 CFG = {
     "modules": ["HumphreyModel.Props.C06"],
-    "rule": "one case = one request to one handler (humphrey::handlers::serve_dir, serve_as_file_path, humphrey-server "
+    "extra_harness": ["harness-tokio"],
+    "rule": "(the async twins of serve_dir / serve_as_file_path in humphrey --features tokio are asked every question too, "
+            "through the hvt co-process: cases serve_dir_tokio / serve_as_file_path_tokio, same model, same spec) "
+            "one case = one request to one handler (humphrey::handlers::serve_dir, serve_as_file_path, humphrey-server "
             "static::directory_handler, file_handler; called in-process) against one generated directory tree built under "
             "verif/work/c06_<pid>/ and removed afterwards; the same tree is sent to the Lean model inside the case line. "
             "Trees: nested directories to depth 4; index.html / index.htm present, absent, both, or being directories; "
